@@ -227,6 +227,10 @@ impl Simulation {
     /// specified target time, whether or not an event was scheduled for that
     /// time.
     pub fn step_until(&mut self, deadline: impl Deadline) -> Result<(), ExecutionError> {
+        if self.is_terminated {
+            return Err(ExecutionError::Terminated);
+        }
+
         let now = self.time.read();
         let target_time = deadline.into_time(now);
         if target_time < now {
@@ -386,6 +390,10 @@ impl Simulation {
         &mut self,
         upper_time_bound: MonotonicTime,
     ) -> Result<Option<MonotonicTime>, ExecutionError> {
+        if self.is_terminated {
+            return Err(ExecutionError::Terminated);
+        }
+
         // Function pulling the next action. If the action is periodic, it is
         // immediately re-scheduled.
         fn pull_next_action(scheduler_queue: &mut MutexGuard<SchedulerQueue>) -> Action {
